@@ -469,9 +469,8 @@ func (in *Interp) binop(op string, l, r *Value) *Value {
 	case "%":
 		if l.K == KInt && r.K == KInt {
 			if r.I == 0 {
-				if in.Cfg.IgnoreDiv0 {
-					refuse("%% by zero with IgnoreDiv0 set (not documented)")
-				}
+				// by code OpModulus: IgnoreDiv0 ("当div0时暂不报错") covers division only, the remainder by zero is
+				// an error under every configuration (no document says otherwise)
 				fail("modulo by zero")
 			}
 			return Int(l.I % r.I)
